@@ -2685,7 +2685,7 @@ class BaseInterpreter(Generic[TContext, TEvent]):
                     break
 
             # ⚡ Transient `""` ("always") transitions.
-            if is_transient_check and "" in current.on:
+            if is_explicit_transient_event and "" in current.on:
                 for t in current.on[""]:
                     if _passes(t):
                         eligible.append(t)
